@@ -58,6 +58,11 @@ func (EpochsEngine) Generate(r *simcore.RNG, tier string, idx int) *simcore.Plan
 		p.Config["oog"] = r.Range(0, 60)
 		p.Config["finite"] = int64(r.Intn(2)) // the block context carries a finite gas meter
 	}
+	if idx%4 >= 2 {
+		// some blocks are first executed on a branch that is thrown away (a proposal that is processed and then not
+		// decided, optimistic execution that is aborted), then for real - same process, same keeper
+		p.Config["spec"] = r.Range(50, 400)
+	}
 	nt := int(r.Range(1, 4))
 	for i := 0; i < nt; i++ {
 		p.Steps = append(p.Steps, simcore.Step{Op: "addtimer", A: []int64{int64(r.Intn(len(epochDurations))), r.Range(0, 4), r.Range(0, 1000)}})
@@ -367,6 +372,19 @@ func (EpochsEngine) Execute(run *simcore.Run) {
 				}
 			} else if now.Equal(nt.curStart.Add(nt.dur)) {
 				run.Probe("block-exactly-at-epoch-end")
+			}
+		}
+
+		// ---- fault: the same block is first executed speculatively on a branch that is discarded ----
+		if spec := run.Plan.Cfg("spec", 0); spec > 0 && int64(simcore.Mix(w.salt, fmt.Sprintf("spec/%d", height), 0)%1000) < spec {
+			func() {
+				defer func() { _ = recover() }()
+				k.BeginBlocker(newCtx(cms.CacheMultiStore()))
+			}()
+			w.log = nil
+			run.Fault("speculative-block-discarded")
+			if len(exp) > 0 {
+				run.Probe("speculative-execution-of-a-ticking-block")
 			}
 		}
 
